@@ -3,12 +3,16 @@ From V Require Import Base.Util Gql.Ast C05.Model C05.Spec.
 
 Inductive case :=
 | CCheck (label : str) (doc : tsdoc) (errs : list cerr)      (* resolved document, diagnostics of check_type_system_document *)
-| CResolve (label : str) (doc : tsdoc) (failed : bool).      (* merged, unresolved document; did resolve_schema_extensions fail *)
+| CResolve (label : str) (doc : tsdoc) (failed : bool)       (* merged, unresolved document; did resolve_schema_extensions fail *)
+| CSub (doc : tsdoc) (pairs : list (ty * ty * option bool)). (* unit level: types.rs::is_subtype(schema of doc, a, b) = r *)
 
 Definition agree (c : case) : bool :=
   match c with
   | CCheck _ doc errs => list_eqb cerr_eqb (check_doc doc) errs
   | CResolve _ doc failed => Bool.eqb (resolve_fails doc) failed
+  | CSub doc pairs =>
+      forallb (fun p : ty * ty * option bool =>
+                 option_eqb Bool.eqb (is_subtype doc (fst (fst p)) (snd (fst p))) (snd p)) pairs
   end.
 
 (** the generator's label of a single-fault mutation -> the rule it breaks *)
@@ -64,4 +68,15 @@ Definition holds (c : case) : bool :=
       (if str_eqb label (s "valid") then false else true) &&
       (if str_eqb label (s "dup_type") then same_kind_dup doc else true) &&
       (if same_kind_dup doc then failed else true)
+  | CSub doc pairs =>
+      (* the schema is accepted and has unique names (premises of C05_is_subtype_covariant_correct); then on defined
+         types the implementation's answer is the specification's IsValidImplementationFieldType, and "unknown" (None)
+         is only ever answered for an undefined type *)
+      is_nil (check_doc doc) && unique_names doc &&
+      forallb (fun p : ty * ty * option bool =>
+                 let '(a, b, r) := p in
+                 if defined doc (base_name a) && defined doc (base_name b)
+                 then Bool.eqb (valid_impl_field_type doc a b) (match r with Some true => true | _ => false end)
+                      && (match r with None => false | _ => true end)
+                 else true) pairs
   end.
